@@ -464,9 +464,50 @@ def r9_fresh_scope(c, facts, rule='C08.R9'):
             c.bad(R, 'stack-mutated-in:%s' % fn.qname, '%s changes the scope stack (%s)' % (fn.qname, muts))
 
 
+def r10_names_structural(c, facts):
+    """a (qualifier, identifier) pair stays a pair from the syntax tree to the scope key, and whether a variable is
+    qualified is a matter of tree shape, never of spelling"""
+    R = c.rule('C08.R10', 'NAMES-STRUCTURAL: typed accessors select children by position and kind only (no comparison of token texts); a scope key keeps identifier and qualifier apart')
+    n = 0
+    CMP = {'eq', 'ne', 'cmp', 'partial_cmp', 'starts_with', 'ends_with', 'contains', 'find', 'eq_ignore_ascii_case', 'strip_prefix', 'strip_suffix'}
+    for fn in sorted(facts.fns.values(), key=lambda f: f.qname):
+        q = fn.qname
+        if not fn.mir or not q.startswith('oal_syntax::parser::') or q.split('::')[-1].startswith(('parse_', 'test')) or fn.kind == 'Fn':
+            continue
+        n += 1
+        for b, t in fn.calls():
+            cal = callee_of(t)
+            if not cal:
+                continue
+            nm = P.strip(cal['def']).split('::')[-1]
+            st = (cal.get('self_ty') or '') + ' ' + ' '.join(a.get('ty', '') for a in t['args'])
+            if nm in CMP and any(x in st for x in ('Identifier', 'Ident', 'str', 'String')):
+                c.bad(R, '%s:compares-text:%s' % ('::'.join(q.split('::')[-2:]).split('{')[0].rstrip(':'), nm), '%s decides by comparing identifier text (%s): the structure of a name then depends on its spelling (e.g. `pet.pet` loses its qualifier)' % (q, nm))
+    c.floor(R, 'typed accessor methods scanned', n, 60)
+    adt = facts.adt('oal_compiler::env::Entry')
+    flds = (adt or {}).get('variants', [{}])[0].get('fields', []) if adt else []
+    if len(flds) == 2 and 'Ident' in flds[0][1] and 'Option' in flds[1][1]:
+        c.ok(R, {'env::Entry': 'two components: identifier and optional qualifier'})
+    else:
+        c.bad(R, 'entry-not-a-pair', 'the scope key env::Entry no longer keeps the identifier and the qualifier as two components (%s): distinct names can be flattened onto one key' % [x[1].split('::')[-1] for x in flds])
+    en = c.anchor(R, 'oal_compiler::env::Entry::new')
+    idx = MF.defs_index(en)
+    ok = False
+    for b, blk in en.blocks():
+        for s in blk['stmts']:
+            if s['s'] == 'assign' and s['rv']['r'] == 'aggr' and s['rv'].get('adt', '').endswith('env::Entry') and len(s['rv']['ops']) == 2:
+                sl = [MF.slice_back(en, o['l'], idx) if 'l' in o else {'args': set(), 'calls': [1]} for o in s['rv']['ops']]
+                ok = sl[0]['args'] == {1} and sl[1]['args'] == {2} and not sl[0]['calls'] and not sl[1]['calls']
+    if ok:
+        c.ok(R, {'Entry::new': 'stores (ident, qualifier) unchanged'})
+    else:
+        c.bad(R, 'entry-new-rewrites-name', 'Entry::new no longer stores its two arguments unchanged as the two components of the key')
+
+
 def run(c, facts):
     import c10
     import c09
+    c.run(r10_names_structural, facts)
     c.run(r9_fresh_scope, facts)
     R8 = c.rule('C08.R8', 'NAMING: a qualified identifier evaluates to its own module\'s value: implicit names are injective over (module, node, instantiation) (shared with C09.R2)')
     c.shared(R8, c09.r2_scoped_id, 'C09.R2', facts)
